@@ -57,7 +57,14 @@ Example predicted_examples :
   predicted_signature "internal/storage.(*GrantSessionManager).SessionByTokenID.func1:read" "internal/token.updateRefreshTokenGrantSession:write" = true /\
   predicted_signature "internal/storage.(*ClientManager).Client:write" "internal/storage.(*ClientManager).Client:write" = true /\
   predicted_signature "internal/storage.(*ClientManager).Save:write:map" "internal/storage.(*ClientManager).Client:read:map" = false /\
-  predicted_signature "internal/token.generateToken:write" "internal/token.generateToken:read" = false.
+  predicted_signature "internal/token.generateToken:write" "internal/token.generateToken:read" = false /\
+  (* a client updated through PUT /register/{id} while a token request reads it *)
+  predicted_signature "internal/dcr.update:write" "internal/token.*:read" = true /\
+  (* nothing is predicted for a map operation inside internal/storage, whatever the lock story of its caller,
+     nor for a write site the model does not list (a per-request copy of the client must not reach shared memory) *)
+  predicted_signature "internal/storage.(*GrantSessionManager).DeleteByAuthorizationCode:write:map" "internal/storage.(*GrantSessionManager).firstSession:read:map" = false /\
+  predicted_signature "internal/authorize.clientWithRedirectURI:write" "internal/authorize.clientWithRedirectURI:write" = false /\
+  predicted_signature "internal/authorize.*:read" "internal/authorize.clientWithRedirectURI:write" = false.
 Proof. vm_compute. repeat split. Qed.
 Eval vm_compute in race_pairs (trace no_jwks_uri c20_refresh c20_store) (trace no_jwks_uri c20_introspect c20_store).
 Eval vm_compute in race_pairs (trace no_jwks_uri c20_callback c20_store) (trace no_jwks_uri c20_code c20_store).
